@@ -76,6 +76,7 @@ def check_case(lines, obs):
                 if f not in procs or to not in procs:
                     reasons.append(f"flow {f}>{to} names an undefined process")
             for name, proc, ls, tl, cls, lm, solver in b["stocks"]:
+                tl = "t" if tl == "-" else tl          # the documented default of StockDefinition.time_letter
                 L = [] if ls == "-" else ls.split(",")
                 if any(l not in defined for l in L):
                     reasons.append(f"stock {name} uses an undefined dimension")
@@ -101,11 +102,12 @@ def check_case(lines, obs):
             ids = {p: i for i, p in enumerate(procs)}
             fl = []
             for f, to, ls, ov in b["flows"]:
-                nm = ov if ov != "-" else naming(b["naming"], f, to, ids)
+                nm = ("" if ov == "<empty>" else ov) if ov != "-" else naming(b["naming"], f, to, ids)
                 L = [] if ls == "-" else ls.split(",")
                 fl.append((nm, f"{nm}:{f}>{to}:[{' '.join(by_letter[l] for l in L)}]:zero"))
             st = []
             for name, proc, ls, tl, cls, lm, solver in b["stocks"]:
+                tl = "t" if tl == "-" else tl
                 L = ls.split(",")
                 cls = {"sdsmsub": "sdsm", "idsmsub": "idsm"}.get(cls, cls)
                 st.append((name, f"{name}:{cls}:{lm}:{solver if cls == 'sdsm' else 'none'}:{tl}:{proc if proc != '-' else 'none'}:"
@@ -118,7 +120,7 @@ def check_case(lines, obs):
             got_secs = {}
             if ob.startswith("ok "):
                 body = ob[3:]
-                for key, nxt_ in (("P", " | F "), ("F", " | S "), ("S", " | R "), ("R", None)):
+                for key, nxt_ in (("P", " | F "), ("F", " | S "), ("S", " | R "), ("R", " | D "), ("D", None)):
                     if not body.startswith(key + " ") and body != key:
                         got_secs = None
                         break
@@ -144,11 +146,13 @@ def check_case(lines, obs):
                 else:
                     canon.append(p_)
             got_secs["R"] = " ; ".join(canon)
-            groups = {"P": [(p,) for p in procs], "F": fl, "S": st, "R": pr}
+            want_secs["D"] = ",".join(letters)
+            groups = {"P": [(p,) for p in procs], "F": fl, "S": st, "R": pr, "D": [(l,) for l in letters]}
             what = {"P": "processes numbered in the listed order", "F": "one zero-valued flow per flow definition, from the named source to the named target, under the generated or overriding name, over the listed dimensions",
                     "S": "one stock per stock definition of the requested class, lifetime model, solver, time letter and process",
-                    "R": "parameters under their names, over the listed dimensions"}
-            for key in ("P", "F", "S", "R"):
+                    "R": "parameters under their names, over the listed dimensions",
+                    "D": "the system's dimension set holds every defined dimension, used or not, in the defined order"}
+            for key in ("P", "F", "S", "R", "D"):
                 g = groups[key]
                 if len({x[0] for x in g}) != len(g):
                     continue
@@ -248,10 +252,10 @@ def check_defs(lines, obs):
                 tables.append("processes: name | " + " ; ".join(b["procs"]))
             if b["flows"]:
                 tables.append("flows: dim_letters,from_process_name,to_process_name,name_override | "
-                              + " ; ".join(f"{show(f[2])},{f[0]},{f[1]},{'None' if f[3] == '-' else f[3]}" for f in b["flows"]))
+                              + " ; ".join(f"{show(f[2])},{f[0]},{f[1]},{'None' if f[3] == '-' else ('' if f[3] == '<empty>' else f[3])}" for f in b["flows"]))
             if b["stocks"]:
                 tables.append("stocks: dim_letters,name,process_name,time_letter,subclass,lifetime_model_class,solver | "
-                              + " ; ".join(f"{show(s[2])},{s[0]},{'None' if s[1] == '-' else s[1]},{s[3]},{CLSNAME[s[4]]},"
+                              + " ; ".join(f"{show(s[2])},{s[0]},{'None' if s[1] == '-' else s[1]},{'t' if s[3] == '-' else s[3]},{CLSNAME[s[4]]},"
                                            f"{'None' if s[5] == 'none' else s[5]},{s[6]}" for s in b["stocks"]))
             if b["params"]:
                 tables.append("parameters: dim_letters,name | " + " ; ".join(f"{show(p[1])},{p[0]}" for p in b["params"]))
